@@ -182,12 +182,28 @@ mod imp {
                     ours = true;
                 }
             }
-            wr(if ours { b"\nGUARD-HIT addr=0x" } else { b"\nHARNESS-CRASH addr=0x" });
-            wr_hex(addr);
-            wr(b" case=");
+            // a fault outside the guard pages while this thread is inside a call into the library (between its call
+            // event and its return event) is a wild access by the library (e.g. an index that wrapped); any other
+            // fault is the harness's own problem
             let tid = gettid();
             let nt = N_THREADS.load(Ordering::SeqCst).min(MAX_THREADS);
             let t = std::ptr::addr_of!(TID_TABLE) as *const (i64, usize);
+            let mut in_call = false;
+            for i in 0..nt {
+                let (id, _) = t.add(i).read();
+                if id == tid && HEART[i].load(Ordering::Relaxed) != 0 {
+                    in_call = true;
+                }
+            }
+            wr(if ours {
+                b"\nGUARD-HIT addr=0x"
+            } else if in_call {
+                b"\nWILD-ACCESS addr=0x"
+            } else {
+                b"\nHARNESS-CRASH addr=0x"
+            });
+            wr_hex(addr);
+            wr(b" case=");
             for i in 0..nt {
                 let (id, p) = t.add(i).read();
                 if id == tid && p != 0 {
@@ -200,7 +216,13 @@ mod imp {
                 }
             }
             wr(b"\n");
-            libc::_exit(if ours { 77 } else { 78 });
+            libc::_exit(if ours {
+                77
+            } else if in_call {
+                75
+            } else {
+                78
+            });
         }
     }
 
